@@ -88,7 +88,7 @@ def normalise_free(act, exp, free):
 
 # "@0" variants: the smallest label of the scenario is 0 / 0.0 / '' (falsy labels)
 # "mixed@big": int and float labels around 2e7 (dates written yyyymmdd): exact in float64, not in float32
-VARIANTS = ["i", "f", "s", "mixed", "i@0", "f@0", "s@0", "mixed@big"]
+VARIANTS = ["i", "f", "s", "mixed", "i@0", "f@0", "s@0", "mixed@big", "f@big", "u"]     # f@big: floats around 1e6 spaced by 0.5; u: unsigned ints
 
 
 def replay(scn):
@@ -98,6 +98,8 @@ def replay(scn):
     for variant in VARIANTS:
         mixed = variant.startswith("mixed")
         codec = A.LabelCodec(mixed=mixed, offset=(40400200 if variant == "mixed@big" else 0))
+        if variant == "f@big":
+            codec = A.LabelCodec(offset=2000000)
         if variant.endswith("@0") and not mixed:
             hs = [h for a in i["arrs"] for l in a["labs"] for h in l]
             if not hs:
@@ -153,7 +155,8 @@ def replay(scn):
                         break
                     ee = dict(e, kinds=nact["kinds"])
                     # (axis-level metadata through Dataset operations is not covered by any property)
-                    w = A.compare(ee, nact, free_kinds=True, dtype_any=[e["dtype"]] + (["f"] if mixed or True else []),
+                    # integer data become float only where a NaN had to be filled in
+                    w = A.compare(ee, nact, free_kinds=True, dtype_any=[e["dtype"]] + (["f"] if -1 in e["cells"] else []),
                                   check_aattrs=(form != "datasets"), check_attrs=(form != "datasets"))
                     if w and not (w.startswith("dtype") and False):
                         what = "output %d %s" % (k, w)
